@@ -97,6 +97,8 @@ where
       if self.task_handler.is_closed() {
         let delay = (self.duration_selector)(&value);
         if self.edge.leading {
+          // the item emitted on the leading edge is not also the trailing one
+          self.trailing_value.rc_deref_mut().take();
           self.observer.next(value)
         }
         let task = OnceTask::new(
